@@ -155,6 +155,78 @@ def run(ctx):
                     ctx.bad(R_sink, key, where,
                             "path of %s derives from %s with a derivation that passes no sanitiser" % (c.split("::")[-1], ", ".join(s.split("::")[-1] for s in srcs)),
                             "an entry named like `..\\..\\x` (or an absolute path) makes the tool create or overwrite files outside the output directory")
+    # --- positive form for the extraction command: whatever is joined onto the output directory came out of a sanitiser
+    R_join = ctx.rule("C11.joined-component-sanitised", "in the extraction functions every component joined onto the output directory is the result of file_name() or of a component-checking sanitiser — on every definition", floor=2)
+    R_strict = ctx.rule("C11.sanitiser-checks-every-component", "a component sanitiser tests all components (no skip/filter before the test) and admits only Normal/CurDir (or rejects ParentDir, RootDir and Prefix)", floor=1)
+    for f in fns:
+        if "commands::mpq" not in f.path or "extract" not in f.path:
+            continue
+        root_fn = cli.fns.get(f.root) if f.kind == "Closure" else f
+        der = None
+        for bb, t in mirg.iter_calls(f):
+            c = ncallee(t)
+            if c != "std::path::Path::join" or len(t["a"]) < 2:
+                continue
+            der = der or Derive(f, stop=stop)
+            # only joins whose result reaches a file-system mutation
+            dl = mirg.plocal(t["d"])
+            reaches = False
+            for b2, t2 in mirg.iter_calls(f):
+                c2 = ncallee(t2)
+                if c2 in FS_MUT or c2 in wrappers:
+                    for i2 in ([FS_MUT[c2]] if c2 in FS_MUT else sorted(wrappers[c2])):
+                        if i2 < len(t2["a"]) and mirg.op_local(t2["a"][i2]) is not None:
+                            ls, _, _ = der.du.slice_back(mirg.op_local(t2["a"][i2]), depth=10)
+                            if dl in ls:
+                                reaches = True
+            if not reaches:
+                continue
+            roots = der.roots(t["a"][1])
+            leaks = sorted({("param %s" % (f.mir["locals"][w[0]][1] or w[0])) for k, w, d in roots if k == "param"} |
+                           {w.split("::")[-1] for k, w, d in roots if k == "call" and SOURCES.search(w)})
+            sanit = sorted({w.split("::")[-1] for k, w, d in roots if k == "call" and stop.search(w)})
+            key = "%s|join|line-ordinal" % f.path
+            if leaks:
+                ctx.bad(R_join, "%s|join|%s" % (f.path, ",".join(leaks)[:60]), "%s:%d" % (f.file, t["ln"]),
+                        "the component joined onto the output directory derives from %s on a definition that passes no sanitiser%s" % (", ".join(leaks), (" (other definitions pass %s)" % ", ".join(sanit)) if sanit else ""),
+                        "a name with `..`, mixed separators or a leading separator escapes the output directory")
+            else:
+                ctx.ok(R_join, {"fn": f.path, "line": t["ln"], "sanitised_by": sanit})
+    for sp in sorted(san_fns):
+        sf = cli.fns.get(sp) or mpq.fns.get(sp)
+        if sf is None or not sf.hir or "security::" in sp:
+            continue
+        body = sf.hir["body"]
+        chains_ok = False
+        problems = []
+        for x in hirq.walk(body):
+            if x.get("k") == "mcall" and x["m"] in ("all", "any", "find", "position"):
+                # walk the receiver chain back to components()
+                names = []
+                cur = hirq.strip(x["recv"])
+                while cur is not None and cur.get("k") == "mcall":
+                    names.append(cur["m"])
+                    cur = hirq.strip(cur["recv"])
+                if "components" not in names:
+                    continue
+                adapters = [n for n in names if n != "components"]
+                bad_ad = [a for a in adapters if a in ("skip_while", "skip", "filter", "take", "take_while", "step_by", "filter_map", "skip_last", "peekable") or a.startswith("skip")]
+                pred = hirq.render(x["args"][0]) if x["args"] else ""
+                import json as _json
+                ptxt = _json.dumps(x["args"][0]) if x["args"] else ""
+                variants = set(re.findall(r"path::Component::(\w+)", ptxt))
+                if bad_ad:
+                    problems.append("components are passed through `%s` before being tested" % ", ".join(bad_ad))
+                if x["m"] == "all" and not variants <= {"Normal", "CurDir"}:
+                    problems.append("allow-list admits %s" % sorted(variants - {"Normal", "CurDir"}))
+                if x["m"] == "any" and not {"ParentDir", "RootDir", "Prefix"} <= variants:
+                    problems.append("deny-list lacks %s" % sorted({"ParentDir", "RootDir", "Prefix"} - variants))
+                chains_ok = True
+        if problems:
+            ctx.bad(R_strict, "%s|strictness" % sp, sf.where, "; ".join(problems), "an absolute or prefixed entry name passes the check and `Path::join` then discards the output directory")
+        elif chains_ok:
+            ctx.ok(R_strict, {"sanitiser": sp})
+
     ef = cli.fns.get("warcraft_rs::commands::mpq::extract_files_with_options")
     if ef is None:
         ctx.bad(R_cover, "extract_files_with_options|missing", "-", "extraction function not found", "anchor gone")
